@@ -19,3 +19,13 @@ klass("Line", module="fparser.common.readfortran", fields=dict(
     is_f2py_directive="bool", parse_cache="dict[int,ref?]"))
 klass("CppDirective", bases=("Line",), module="fparser.common.readfortran")
 klass("Comment", module="fparser.common.readfortran", fields=dict(comment="str", inline="bool"))
+
+klass("SymbolTables", module="fparser.two.symbol_table", fields=dict(
+    _symbol_tables="dict[str,ref]", _current_scope="ref:SymbolTable?", _enable_checks="bool"))
+klass("SymbolTable", module="fparser.two.symbol_table", fields=dict(
+    _name="str", _parent="ref:SymbolTable?", _children="list[ref]", _node="any", _checking_enabled="bool",
+    _data_symbols="dict[str,any]", _modules="dict[str,ref]"))
+klass("SymbolTableError", bases=("Exception",), exception=True)
+
+# G4: the open scoping regions, outermost first
+ghost("scope_stack", "list[ref]")
